@@ -274,7 +274,7 @@ func genC08(t *rapid.T) c08Case {
 		c.Silent = isHTTP(c.Carrier) && rapid.Bool().Draw(t, "silent")
 		return c
 	case 1:
-		return c08Case{Mode: "req-count", Carrier: rapid.SampledFrom([]string{cHTTP, cHTTPMux}).Draw(t, "carrier"), NReq: rapid.IntRange(0, 4).Draw(t, "nreq"), Method: "ServerStream", FirstEmpty: rapid.Bool().Draw(t, "firstempty"), Decorated: rapid.IntRange(0, 2).Draw(t, "decorated") == 0}
+		return c08Case{Mode: "req-count", Carrier: rapid.SampledFrom([]string{cHTTP, cHTTPMux, cHTTPPer}).Draw(t, "carrier"), NReq: rapid.IntRange(0, 4).Draw(t, "nreq"), Method: "ServerStream", FirstEmpty: rapid.Bool().Draw(t, "firstempty"), Decorated: rapid.IntRange(0, 2).Draw(t, "decorated") == 0}
 	}
 	c := c08Case{Mode: "resp-count", Carrier: rapid.SampledFrom(sutCarriers).Draw(t, "carrier")}
 	c.S = genScript(t, scriptGenOpts{MaxMsg: 300, MDKeys: 1, Cardinality: true, NoEarly: true, OnlyKinds: []string{kClientStream}, PlainStatus: true})
@@ -321,6 +321,7 @@ var _ = http.StatusOK
 const c08Rule = "rapid-generated: (resp-count) client-streaming calls whose raw handler emits n in 0..8 responses with nil or non-nil final status, with/without headers and trailers, on inproc/httpgrpc.Server/HandleServices; " +
 	"(unary-nil) unary handlers returning an untyped or typed nil response, protobuf via the real client and JSON via a raw HTTP request; (req-count) clients streaming 0..4 requests to a single-request method over HTTP; " +
 	"oracle: n=1 and OK => success with exactly that message, otherwise never success and no message handed out with nil error; nil response => non-OK status; >=2 requests => handler RecvMsg and the call fail; " +
+	"also generated since the seeded rounds: empty first/surplus messages, wrapped errors, a renderer that writes nothing, descriptions decorated by grpchan.InterceptServer before registration; " +
 	"non-trivial = n != 1, non-nil status, nil response, or request count != 1; distinct by case hash"
 
 func TestC08(t *testing.T) {
